@@ -103,6 +103,7 @@ def run_case(stream, seed, ctx, params):
     fault = FAULTS[seed % len(FAULTS)]
     args = []
     detail = ''
+    imp0_lat = False
     # ---- base deck suited to the fault
     if fault in ('lat-noopt', 'lat-dim', 'fill-short', 'fill-long', 'lat-odd'):
         d = U.build_universe_deck(rng, depth=2, macro_p=0.0, tr_p=0.0, fill_tr_p=0.0, trcl_p=0.0, lattice_p=0.7,
@@ -110,6 +111,12 @@ def run_case(stream, seed, ctx, params):
         lat = [c for c in d.cells if c.lat]
         if not lat:
             return None
+        if fault in ('lat-noopt', 'lat-dim') and rng.random() < 0.3:
+            # the faulty lattice cell has importance zero (a cell of a universe: its own importance is immaterial to
+            # what is converted, and its FILL is read all the same)
+            for c_ in lat:
+                c_.imp = 0
+            imp0_lat = True
     elif fault in ('trcl-m', 'fill-m'):
         d = U.build_universe_deck(rng, depth=1, macro_p=0.0, tr_p=0.0, fill_tr_p=1.0, trcl_p=1.0,
                                   rot_classes=['perm', 'pyth'])
@@ -212,7 +219,7 @@ def run_case(stream, seed, ctx, params):
             host.mat, host.rho = 0, None
             host.fill = {'u': u2, 'tr': None}
             d.cells.append(c2)
-        detail = variant
+        detail = variant + (' imp0' if imp0_lat else '')
         text = D.render_deck(d, D.Layout(rng))
     elif fault == 'lat-dim':
         c = rng.choice(lat)
@@ -236,7 +243,7 @@ def run_case(stream, seed, ctx, params):
         c.fill = {'ranges': rs, 'us': [us[0]] * (2 ** wrong), 'tr': None}
         c.hints['fill_by_option'] = True
         args += ['--lattice', '%d,%s' % (c.id, ','.join('%d:%d' % r for r in rs))]
-        detail = '%d-for-%d%s' % (wrong, ndim, ' (%d ranges)' % len(rs) if len(rs) > 3 else '')
+        detail = '%d-for-%d%s' % (wrong, ndim, ' (%d ranges)' % len(rs) if len(rs) > 3 else '') + (' imp0' if imp0_lat else '')
         text = D.render_deck(d, D.Layout(rng))
     elif fault == 'lat-odd':
         # a rectangular lattice cell bounded by an odd number of planes: the planes do not pair up
